@@ -81,15 +81,33 @@ Proof.
     eapply Forall_impl; [|exact Hr]. cbn. intros r Hi x Hx. apply Hs. apply Hi. exact Hx.
 Qed.
 
-(* Compaction carries every column over - for the repaired literal.  With Table::new seeding
-   catalogue tables with "column_name", in every history of well-formed requests the guarded run
-   never stops at the F3 site: whenever a flush compacts partitions of any table (client table,
-   _meta_tables, _meta_columns_<t>), the name set it iterates over covers every column the merged
-   rows carry.  (With the literal as it stands this is refuted: C13_compaction_carries_all_refuted.) *)
+(* Compaction carries every column over.  In every history of well-formed requests the guarded
+   run never stops at the "name set incomplete" site of compaction (KF3): whenever a flush compacts
+   partitions of any table (client table, _meta_tables, _meta_columns_<t>), the name set it
+   iterates over (Table.column_names) covers every column the merged rows carry.  So the only site
+   at which the guarded run can stop is KF1 (open finding F1).
+
+   History (finding F3, fixed by 647a26b).  Until 647a26b Table::new seeded catalogue tables with
+   the literal "column_names"; the model carried the literal as a parameter c_seed of the
+   configuration, this theorem had the premise c_seed c = "column_name", and for the literal of the
+   code it was refuted:
+     Theorem C13_compaction_carries_all_refuted :
+       exists s, run false (f3_cfg s_column_names) f3_ops (init (f3_cfg s_column_names)) = Val s /\
+         string_column s_column_name (content s (meta_columns_of f3_t)) = None /\
+         map (fun r => get r s_column_name) (acked_rows (acked s) (meta_columns_of f3_t)) = [CStr f3_id] /\
+         run true (f3_cfg s_column_names) f3_ops (init (f3_cfg s_column_names)) = Known KF3.
+   The same history is [C13_f3_witness_passes] below. *)
 Theorem C13_compaction_carries_all :
   forall (c : cfg) (ops : list op),
-    c_seed c = s_column_name -> Forall wf_op ops -> run true c ops (init c) <> Known KF3.
+    Forall wf_op ops -> run true c ops (init c) <> Known KF3.
 Proof. exact run_not_kf3. Qed.
+
+Corollary C13_guard_stops_only_at_F1 :
+  forall (c : cfg) (ops : list op) (k : known),
+    Forall wf_op ops -> run true c ops (init c) = Known k -> k = KF1.
+Proof.
+  intros c ops k W H. destruct k; [reflexivity|]. exfalso. eapply C13_compaction_carries_all; eauto.
+Qed.
 
 (* A restart always returns.  For every history of well-formed requests the restart of the reached
    state ends in a state: the lazy loading of column names during WAL replay always finds the
@@ -112,12 +130,11 @@ Theorem C13_tables_listed :
       forall n, In n names <-> (n <> s_meta_tables /\ exists t, lookup n (tabs s) = Some t).
 Proof. exact tables_listed. Qed.
 
-(* Finding F3 (faithful model, seed "column_names"): compaction iterates over Table.column_names,
-   which for a catalogue table restored from disk is {"column_names"}; the column "column_name" is
-   not carried over and the catalogue of the table reads as not-a-string-column from then on.
-   Witness: ingest, flush, restart, ingest (no new column), flush - with partition_combine_factor 0. *)
-Definition f3_cfg (seed : name) : cfg :=
-  {| c_factor := 0; c_max_wal_files := 1000; c_max_wal_bytes := 67108864; c_seed := seed |}.
+(* The witness of the retired finding F3: ingest, flush, restart, ingest (no new column), flush -
+   with partition_combine_factor 0, so that the second flush compacts the catalogue table restored
+   from disk. *)
+Definition f3_cfg : cfg :=
+  {| c_factor := 0; c_max_wal_files := 1000; c_max_wal_bytes := 67108864 |}.
 Definition f3_t : name := [116; 49].
 Definition f3_id : name := [105; 100].
 Definition f3_batch (k : Z) : batch :=
@@ -126,16 +143,6 @@ Definition f3_orc : oracle :=
   [(f3_t, (5, 7)); (s_meta_tables, (22, 22)); (meta_columns_of f3_t, (5, 7))].
 Definition f3_ops : list op :=
   [OIngest (f3_batch 0) 200; OFlush false f3_orc; ORestart; OIngest (f3_batch 1) 100; OFlush false f3_orc].
-
-Theorem C13_compaction_carries_all_refuted :
-  exists s, run false (f3_cfg s_column_names) f3_ops (init (f3_cfg s_column_names)) = Val s /\
-    string_column s_column_name (content s (meta_columns_of f3_t)) = None /\
-    map (fun r => get r s_column_name) (acked_rows (acked s) (meta_columns_of f3_t)) = [CStr f3_id] /\
-    run true (f3_cfg s_column_names) f3_ops (init (f3_cfg s_column_names)) = Known KF3.
-Proof.
-  eexists. split; [vm_compute; reflexivity|]. split; [vm_compute; reflexivity|].
-  split; vm_compute; reflexivity.
-Qed.
 
 (* the requests of the witness are well-formed: the theorems above apply to it *)
 Example C13_witness_wf : Forall wf_op f3_ops.
@@ -152,9 +159,13 @@ Proof.
   constructor; [apply W|]. constructor; [exact I|]. constructor.
 Qed.
 
-(* with the literal repaired the same history goes through and the catalogue lists the column once *)
-Example C13_repaired_example :
-  exists s, run true (f3_cfg s_column_name) f3_ops (init (f3_cfg s_column_name)) = Val s /\
+(* the history goes through, guarded and faithful run agree, and the catalogue lists the column once *)
+Example C13_f3_witness_passes :
+  exists s, run true f3_cfg f3_ops (init f3_cfg) = Val s /\
+    run false f3_cfg f3_ops (init f3_cfg) = Val s /\
     string_column s_column_name (content s (meta_columns_of f3_t)) = Some [f3_id] /\
     string_column s_name (content s s_meta_tables) = Some [f3_t; meta_columns_of f3_t].
-Proof. eexists. split; [vm_compute; reflexivity|]. split; vm_compute; reflexivity. Qed.
+Proof.
+  eexists. split; [vm_compute; reflexivity|]. split; [vm_compute; reflexivity|].
+  split; vm_compute; reflexivity.
+Qed.
